@@ -42,17 +42,6 @@ def parseAns (op : Op) (s : String) : Ans :=
   | .tv .. => (parsePairs s).elim (.other s) .pairs
   | _ => .other s
 
-/-- conditions on which measurement-level and per-series evaluation coincide -/
-def nameOnly : Cond → Bool
-  | .cmp k _ _ => k = nameKey
-  | .and l r => nameOnly l && nameOnly r
-  | .or l r => nameOnly l && nameOnly r
-
-def condOK : Cond → Bool
-  | .cmp k neq v => k = nameKey || (!neq && v ≠ [])
-  | .and l r => condOK l && condOK r && (nameOnly l || nameOnly r)
-  | .or l r => condOK l && condOK r
-
 def sigOf (h : Hist) (op : Op) (ans : Ans) (v : Verd) : String :=
   match v with
   | .ok => ""
